@@ -262,7 +262,8 @@ class MObj:
         self.cls, self.attrs = cls, dict(attrs)
 
     def copy(self):
-        return MObj(self.cls, self.attrs)
+        # nested mutable objects (value.__formulaic_metadata__) are copied too: a path fork must not share them
+        return MObj(self.cls, {k: (v.copy() if isinstance(v, MObj) else v) for k, v in self.attrs.items()})
 
 
 def parse_ty(s, recs=None):
